@@ -3,11 +3,12 @@
    block removes exactly the buckets whose completion time is strictly before the
    block time (in every reachable state); the payout equals, per account and denom,
    the matured balances recorded for that account (C02_payout_exact); entries are
-   filed under their own delegator with their index key.  Removal of the index keys
-   of paid entries is checked by check_C02 on implementation traces (partial). *)
+   filed under their own delegator with their index key; when the payout returns, the
+   bucket and the index key of every paid entry are gone (C02_paid_entries_are_cleaned_up):
+   nothing is left that could be paid or slashed a second time. *)
 From Coq Require Import ZArith List Bool.
 From Alliance Require Import Num KMap Types Monad Model Step Spec Hoare.
-From Alliance.Proofs Require Import SortedInv Queues Payout IndexSync SlashQueue.
+From Alliance.Proofs Require Import SortedInv Queues Payout IndexSync SlashQueue UndelCleanup.
 Import ListNotations.
 Open Scope Z_scope.
 
@@ -40,6 +41,17 @@ Theorem C02_payout_exact : forall h u d, u <> ACC_ALLIANCE -> let s := run init_
   end.
 Proof. exact payout_exact. Qed.
 Print Assumptions C02_payout_exact.
+
+(* exactly once: when the payout returns, the bucket of every matured entry has left the queue and its
+   per-validator index key is gone, so neither a later end of block nor a later slash can reach it *)
+Theorem C02_paid_entries_are_cleaned_up : forall h ct dl l e, let s := run init_state h in
+  In ([ct; dl], l) (undelq s) -> ct < now s -> In e l ->
+  match complete_unbondings s with
+  | Ok _ s' => kget (undelidx s') [u_val e; ct; u_denom e; u_del e] = None /\ kget (undelq s') [ct; dl] = None
+  | _ => True
+  end.
+Proof. exact matured_unbondings_are_cleaned_up. Qed.
+Print Assumptions C02_paid_entries_are_cleaned_up.
 
 (* while pending, the only thing that changes an entry is a slash of its validator, by exactly floor(f x balance)
    (C07_unbondings_slashed_exactly_once), and every entry is filed under its own delegator with its index key *)
